@@ -98,6 +98,13 @@ def _custom_observable_builder(cls, type, properties, version, base_class, id_co
                 if 'extensions' not in self._inner:
                     _insert_in_property_order(self, 'extensions', {})
                 self._inner['extensions'][ext] = class_for_type(ext, version, "extensions")()
+                if kwargs.get('id') is None:
+                    # The deterministic ID was computed before the extension
+                    # was added; "extensions" may be an ID contributing
+                    # property, so compute it again from the final content.
+                    id_ = self._generate_id()
+                    if id_ is not None:
+                        self._inner["id"] = id_
 
     _CustomObservable.__name__ = cls.__name__
 
